@@ -652,19 +652,12 @@ def check_if_edge_pixel(mask_2d: np.ndarray, y: int, x: int) -> bool:
         If `True` the pixel on the mask is an edge pixel, else a `False` is returned because it is not.
     """
 
-    if (
-        mask_2d[y + 1, x]
-        or mask_2d[y - 1, x]
-        or mask_2d[y, x + 1]
-        or mask_2d[y, x - 1]
-        or mask_2d[y + 1, x + 1]
-        or mask_2d[y + 1, x - 1]
-        or mask_2d[y - 1, x + 1]
-        or mask_2d[y - 1, x - 1]
-    ):
-        return True
-    else:
-        return False
+    for y1 in range(max(y - 1, 0), min(y + 2, mask_2d.shape[0])):
+        for x1 in range(max(x - 1, 0), min(x + 2, mask_2d.shape[1])):
+            if mask_2d[y1, x1]:
+                return True
+
+    return False
 
 
 @numba_util.jit()
@@ -688,8 +681,8 @@ def total_edge_pixels_from(mask_2d: np.ndarray) -> int:
 
     edge_pixel_total = 0
 
-    for y in range(1, mask_2d.shape[0] - 1):
-        for x in range(1, mask_2d.shape[1] - 1):
+    for y in range(mask_2d.shape[0]):
+        for x in range(mask_2d.shape[1]):
             if not mask_2d[y, x]:
                 if check_if_edge_pixel(mask_2d=mask_2d, y=y, x=x):
                     edge_pixel_total += 1
@@ -740,19 +733,10 @@ def edge_1d_indexes_from(mask_2d: np.ndarray) -> np.ndarray:
     edge_index = 0
     regular_index = 0
 
-    for y in range(1, mask_2d.shape[0] - 1):
-        for x in range(1, mask_2d.shape[1] - 1):
+    for y in range(mask_2d.shape[0]):
+        for x in range(mask_2d.shape[1]):
             if not mask_2d[y, x]:
-                if (
-                    mask_2d[y + 1, x]
-                    or mask_2d[y - 1, x]
-                    or mask_2d[y, x + 1]
-                    or mask_2d[y, x - 1]
-                    or mask_2d[y + 1, x + 1]
-                    or mask_2d[y + 1, x - 1]
-                    or mask_2d[y - 1, x + 1]
-                    or mask_2d[y - 1, x - 1]
-                ):
+                if check_if_edge_pixel(mask_2d=mask_2d, y=y, x=x):
                     edge_pixels[edge_index] = regular_index
                     edge_index += 1
 
